@@ -339,6 +339,13 @@ func (c *Ctx) c19Rules() {
 			})
 			r.Check(ok, "C19.rules", name, rw.errFn+" iff tally<"+rw.field, posf(c, call), "error reported exactly under the strict comparison of the matching tally with "+rw.field, "the "+rw.errFn+" error is not guarded by tally"+sprintf("%v", rw.idx)+" < "+rw.field+" (wrong class, wrong field, or non-strict comparison)")
 		}
+		if !found {
+			// table idiom: {have, want, describe} rows evaluated by one loop
+			if okT, posT, why := c.rulesTableRow(e, rw.errFn, rw.field, func(v ssa.Value) bool { return sameIdx(tallyIdx(v), rw.idx) }); posT != "" {
+				found = true
+				r.Check(okT, "C19.rules", name, rw.errFn+" iff tally<"+rw.field, posT, "table row pairs the matching tally with "+rw.field+" and the loop reports a row exactly under have < want", "the "+rw.errFn+" row of the rule table is wrong: "+why)
+			}
+		}
 		r.Check(found, "C19.rules", name, rw.errFn, c.P.Pos(e.Pos()), "rule present", "the "+rw.field+" rule is never evaluated")
 	}
 	// length rule
@@ -395,4 +402,111 @@ func (c *Ctx) c19Rules() {
 		}
 		r.Check(hasPw, "C19.rules", FuncName(nb), "password rule", c.P.Pos(nb.Pos()), "default rule set has a password rule", "default body reader has no rule for the password field")
 	}
+}
+
+// rulesTableRow recognises a rule written as a row of a local table of
+// structs {count, minimum, message func}: the row's count must be the given
+// tally, its minimum the given Rules field, its message the bound errFn, and
+// the loop over the table must call a row's message exactly under
+// row.count < row.minimum.
+func (c *Ctx) rulesTableRow(e *ssa.Function, errFn, field string, isTally func(ssa.Value) bool) (ok bool, pos string, why string) {
+	for _, b := range e.Blocks {
+		for _, in := range b.Instrs {
+			mc, isMC := in.(*ssa.MakeClosure)
+			if !isMC {
+				continue
+			}
+			f, _ := mc.Fn.(*ssa.Function)
+			if f == nil || !strings.HasSuffix(f.Name(), errFn+"$bound") {
+				continue
+			}
+			pos = posf(c, mc)
+			// the row literal this closure is stored into
+			var row ssa.Value // the row being built: a local literal or the table element itself
+			iDesc := -1
+			for _, ref := range *mc.Referrers() {
+				if st, isSt := ref.(*ssa.Store); isSt && st.Val == ssa.Value(mc) {
+					if fa, isFA := st.Addr.(*ssa.FieldAddr); isFA {
+						switch fa.X.(type) {
+						case *ssa.Alloc, *ssa.IndexAddr:
+							row, iDesc = fa.X, fa.Field
+						}
+					}
+				}
+			}
+			if row == nil {
+				return false, pos, "the bound message function is not stored in a row literal"
+			}
+			iHave, iWant := -1, -1
+			for _, ref := range *row.Referrers() {
+				fa, isFA := ref.(*ssa.FieldAddr)
+				if !isFA || fa.Referrers() == nil {
+					continue
+				}
+				for _, rr := range *fa.Referrers() {
+					st, isSt := rr.(*ssa.Store)
+					if !isSt || st.Addr != ssa.Value(fa) {
+						continue
+					}
+					if isTally(st.Val) {
+						iHave = fa.Field
+					}
+					if fieldLoadName(st.Val) == field {
+						iWant = fa.Field
+					}
+				}
+			}
+			if iHave < 0 || iWant < 0 {
+				return false, pos, "the row does not pair the matching character count with " + field
+			}
+			// the loop: a dynamic call of row.describe under row.have < row.want
+			rowT := row.Type()
+			if row.Referrers() == nil {
+				return false, pos, "row literal not understood"
+			}
+			fieldOf := func(v ssa.Value) (ssa.Value, int) {
+				u, isU := v.(*ssa.UnOp)
+				if !isU {
+					if fv, isF := v.(*ssa.Field); isF {
+						return fv.X, fv.Field
+					}
+					return nil, -1
+				}
+				fa, isFA := u.X.(*ssa.FieldAddr)
+				if !isFA {
+					return nil, -1
+				}
+				return fa.X, fa.Field
+			}
+			for _, call := range Calls(e) {
+				if Callee(call) != "" {
+					continue
+				}
+				base, fi := fieldOf(call.Common().Value)
+				if base == nil || fi != iDesc || base.Type().String() != rowT.String() {
+					continue
+				}
+				guarded := HasFact(FactsAtInstr(call.(ssa.Instruction)), func(f Fact) bool {
+					rel := f.Rel()
+					x, y := rel.X, rel.Y
+					switch rel.Op {
+					case token.LSS:
+					case token.GTR:
+						x, y = y, x
+					default:
+						return false
+					}
+					bx, fx := fieldOf(x)
+					by, fy := fieldOf(y)
+					return bx == base && by == base && fx == iHave && fy == iWant
+				})
+				if guarded {
+					return true, pos, ""
+				}
+				return false, posf(c, call), "the loop does not report a row exactly under count < minimum"
+			}
+			return false, pos, "no loop evaluates the rows' message functions"
+		}
+	}
+	return false, "", ""
 }
